@@ -294,8 +294,9 @@ def _style_classes(ctx):
                          % (cname, meth))
                 continue
             rf = X.spec_method(P, "ref_logger.py", refname, cq)
-            r = X.compare(P, fn, rf, live_kw={"try_raises": False},
-                          ref_kw={"try_raises": False},
+            r = X.compare(P, fn, rf,
+                          live_kw={"try_raises": False, "self_class": cq},
+                          ref_kw={"try_raises": False, "self_class": cq},
                           rename=lambda s: s.replace(
                               "_StrFormatStyle__formatter", "__formatter"))
             if r["verdict"] == "violation" and not r.get("vanished"):
